@@ -229,8 +229,12 @@ def check(run: Run, prog: Program, model: Model, tier: str) -> None:
         "validator's type guard. REQUIRED-KEYS: generated dicts contain every required key. Whether concrete "
         "generated values validate for all RNG outcomes (float grid arithmetic, regex matches) is not decided.")
     run.explanation += " A declared bound returned as the generated value carries every kind the declaration's isinstance guards admit for it (KIND-AGREE); when the validator rejects values that round(value, precision) changes, every generator path under that state returns round(_, precision) - the random.uniform fallback guarded by a float-product test is reported (GRID)."
+    run.explanation += ' DRAW-NONEMPTY: the sequence of every random.choice draw outside the regex generator is non-empty on its path. PAYLOAD-PINNED: every Substitutor.visit_<scalar> stores the validated value itself (or K(value) for its kind K). ROUND-DIR also refuses round(random.uniform(..), precision).'
     run.rule_text = ("obligations per (type, state/shape, prop) for MIRROR, per draw site and state for DRAW-ORDER, per bound "
                      "for ROUND-DIR, per type for KIND-AGREE; non-trivial = dependence / entailment derived on interpreter paths")
+    from ..entry import entry_transparent
+    entry_transparent(run, prog, model, "validate", "VALIDATE-ENTRY")
+    entry_transparent(run, prog, model, "generate", "GENERATE-ENTRY")
     run.trusted += ["satisfiable-schema axioms ax1 (declared min <= max, min_len <= max_len, len(substr) <= max length, lengths >= 0)",
                     "random.randint(a, b) is total iff a <= b; random.uniform is total on finite floats",
                     "sre parser contracts for RANGE and REPEAT bounds (C09)"]
@@ -476,6 +480,12 @@ def check(run: Run, prog: Program, model: Model, tier: str) -> None:
             run.violated("DRAW-NONEMPTY", construct, site, detail,
                          witness="fake(schema.str.alphabet('')) raises IndexError although '' conforms")
     run.floor("DRAW-NONEMPTY", 3)
+    # a generator path that returns props.value is exempt from MIRROR because the payload was checked against the other
+    # props when it was stored: by the declaration (C10.VALCHK) or by the substitutor, which must store the very value
+    # it validated (a rounded / converted copy was never validated)
+    from .c04 import pin_obligations
+    pin_obligations(run, prog, model, tier, "PAYLOAD-PINNED")
+    run.floor("PAYLOAD-PINNED", 20)
     run.floor("MIRROR", 15)
     run.floor("DRAW-ORDER", 8)
     run.floor("KIND-AGREE", 20)
@@ -735,6 +745,21 @@ def _round_dir(run: Run, prog: Program, model: Model) -> None:
                         run.violated("ROUND-DIR", c, e.loc(prog),
                                      f"the {side} bound of the precision grid is rounded {d} ({v.key()[:60]}): the draw can leave [min, max]",
                                      witness="schema.float.min(0.15).max(0.25).precision(1) can generate 0.1 (or -0.1 for negative bounds)")
+    # a value obtained by rounding a CONTINUOUS draw to the grid is rounded to the nearest grid point: a draw within half a
+    # cell of an off-grid bound lands outside [min, max]
+    cont = []
+    for p in paths:
+        if p.outcome == "return" and p.value is not None:
+            k = p.value.key()
+            if k.startswith("call(builtins.round, call(random.uniform") or k.startswith("call(builtins.round, call(random.random"):
+                cont.append(k)
+    c = "Random.random_float: rounding of a continuous draw"
+    if cont:
+        run.violated("ROUND-DIR", c, f.loc, f"a path returns {cont[0][:70]}: round-to-nearest of a uniform draw over [start, end] can fall "
+                     "below start / above end when the bounds are not on the grid",
+                     witness="fake(schema.float.min(0.123).max(1.277).precision(2)) can return 0.12 or 1.28")
+    elif found:
+        run.holds("ROUND-DIR", c, f.loc, "the rounded value is always a quotient of an integer grid draw", nontrivial=True)
     if not found:
         run.undecided("ROUND-DIR", "Random.random_float: grid bounds", f.loc, "no integer grid draw found on the precision path")
     run.floor("ROUND-DIR", 2)
@@ -744,6 +769,11 @@ def _round_dir(run: Run, prog: Program, model: Model) -> None:
 G = "d42/generation/_generator.py"
 R = "d42/generation/_random.py"
 MUTANTS = [
+    {"name": "float substitution stores the value rounded to the precision (seeded C01-K)", "rule": "PAYLOAD-PINNED",
+     "edits": [("d42/substitution/_substitutor.py", "    def visit_float(self, schema: FloatSchema, *, value: Any = Nil, **kwargs: Any) -> FloatSchema:\n        result = schema.__accept__(self._validator, value=value)\n        if result.has_errors():\n            raise make_substitution_error(result, self._formatter)\n        return schema.__class__(schema.props.update(value=value))",
+                "    def visit_float(self, schema: FloatSchema, *, value: Any = Nil, **kwargs: Any) -> FloatSchema:\n        result = schema.__accept__(self._validator, value=value)\n        if result.has_errors():\n            raise make_substitution_error(result, self._formatter)\n        if schema.props.precision is not Nil:\n            value = round(value, schema.props.precision)\n        return schema.__class__(schema.props.update(value=value))")]},
+    {"name": "wide ranges are sampled by rounding a uniform draw (seeded C01-L)", "rule": "ROUND-DIR",
+     "edits": [(R, "        scale_factor = 10 ** precision\n", "        if (end - start) >= 1.0:\n            return round(random.uniform(start, end), precision)\n\n        scale_factor = 10 ** precision\n")]},
     {"name": "empty-alphabet guard removed (fix f2ca6f4 reverted)", "rule": "DRAW-NONEMPTY",
      "edits": [(G, "        if len(alphabet) == 0:\n            # nothing can be drawn from an empty alphabet: only the empty string conforms\n            return \"\"\n", "")]},
     {"name": "float bounds may be ints and a degenerate range returns the bound itself (seeded C01-I)", "rule": "KIND-AGREE",
